@@ -31,6 +31,12 @@ def beforeSep2 (a b : Char) : Str → Str
   | [c] => [c]
   | c :: d :: r => if c = a ∧ d = b then [] else c :: beforeSep2 a b (d :: r)
 
+/-- no `::` inside `u` and `u` does not end in `:` -/
+def noSep : Str → Bool
+  | [] => true
+  | [c] => c != ':'
+  | c :: d :: r => !(c == ':' && d == ':') && noSep (d :: r)
+
 /-! ### decimal numerals -/
 
 def digitChar (d : Nat) : Char := Char.ofNat (48 + d)
@@ -60,8 +66,8 @@ def canonNat? (s : Str) : Option Nat :=
     by single underscores.  (The 4300-digit limit and non-ASCII digits are outside the model.) -/
 
 def isSpace (c : Char) : Bool :=
-  c = ' ' || c = '\t' || c = '\n' || c = '\r' || c.toNat = 11 || c.toNat = 12
-  || c.toNat = 28 || c.toNat = 29 || c.toNat = 30 || c.toNat = 31
+  let n := c.toNat
+  n = 32 || n = 9 || n = 10 || n = 13 || n = 11 || n = 12 || (28 ≤ n && n ≤ 31)
 
 def stripL : Str → Str
   | [] => []
